@@ -94,11 +94,21 @@ def cases(rng, tier):
                     bs = struct.unpack("<i", data[last_bytesize:last_bytesize + 4])[0] + len(rep) - w
                     mutated = mutated[:last_bytesize] + struct.pack("<i", bs) + mutated[last_bytesize + 4:]
                 pend.append((off, rep, exp, desc, kind, mutated))
+        # the readers that step over columns (sbdf_ts_skip, a subset without the column) meet the same markers, section
+        # ids, encodings and element counts and must refuse them with the same status
+        SKIPKINDS = ("arrcount", "slicecols", "encoding", "section", "marker0", "marker1")
+        pend2 = []
+        for x in pend:
+            pend2.append(x + ("*",))
+            if x[4] in SKIPKINDS and x[2] != "decode":
+                pend2.append(x + ("skip",))
+                if ncols: pend2.append(x + ("0" * ncols,))
+        pend = pend2
         for k in range(0, len(pend), 40):
             chunk = [x[:5] for x in pend[k:k + 40]]
             lines = []
-            for (off, rep, exp, desc, kind, mutated) in pend[k:k + 40]:
-                lines += ["in 1 %s" % hx(mutated), "session 1 *"]
+            for (off, rep, exp, desc, kind, mutated, mode) in pend[k:k + 40]:
+                lines += ["in 1 %s" % hx(mutated), "session 1 %s" % mode]
 
             def oracle(c, chunk=chunk):
                 f = []
